@@ -175,7 +175,12 @@ def parse_answer(out):
             if st == 0:
                 n = d.i()
                 sub = Dec(o[d.p:d.p + n])
-                r2 = ("ok", [sub.definition() for _ in range(sub.i())])
+                defs2, raws = [], []
+                for _ in range(sub.i()):
+                    p0 = sub.p
+                    defs2.append(sub.definition())
+                    raws.append(sub.a[p0:sub.p])
+                r2 = ("ok", defs2, raws)
                 d.p += n
             elif st == 1:
                 r2 = ("err", d.i())
@@ -1140,6 +1145,207 @@ def attr_deviation_class(a):
     return walk(0)[1]
 
 
+# --------------------------------------------------------------------------------------------- op 3413: whole attributes
+
+def aty_end(a, p):
+    """index just after the attribute type encoded at a[p:]"""
+    k = a[p]
+    if k in (0, 1):
+        return p + 1
+    if k == 2:
+        return p + 6
+    if k in (3, 4, 5):
+        q = p + 1
+        q += {0: 1, 1: 3, 2: 4}[a[q]]
+        return q + (1 if k == 3 else 0)
+    if k == 6:
+        return aty_end(a, p + 1)
+    if k == 7:
+        q = aty_end(a, p + 1)
+        lk = a[q]
+        if lk in (0, 2):
+            return q + 2
+        if lk in (1, 3):
+            return q + 2 + a[q + 1]
+        q2 = q + 2 + a[q + 1]
+        return q2 + 1 + a[q2]
+    if k in (8, 9):
+        q = p + 1
+        q += {0: 1, 1: 3, 2: 4}[a[q]]
+        return aty_end(a, q)
+    if k == 10:
+        q = p + 2 + a[p + 1]
+        return q + (1 if a[q] == 0 else 3)
+    raise ValueError(k)
+
+
+class AttrItemGen:
+    """whole attributes as the generator prints them for definitions, struct / tuple fields and CHOICE variants, and the
+    hand-written `#[asn(n)]` of ENUMERATED variants (encoding: coq/Extract/OpsCodegen.v run_attr_item)"""
+    FIELDS = ["a", "ab", "my_field", "x1", "value", "long_name_2", "type", "match", "fn", "self", "ref", "yield", "q"]
+    VARIANTS = ["A", "Bc", "DarkBlue", "X1", "Red", "V2", "Other"]
+    CONSTS = ["A", "ABC", "MY_CONST", "X1", "HIGH_VALUE", "B2"]
+
+    def __init__(self, rng):
+        self.rng = rng
+        self.ag = AttrGen(rng)
+
+    def tagopt(self, p=0.5):
+        r = self.rng
+        if r.random() >= p:
+            return [0]
+        return [1, r.randrange(4), r.choice([0, 1, 2, 16, 31, 1023, 2 ** 32, 2 ** 64 - 1])]
+
+    def header(self):
+        r = self.rng
+        kind = r.choice([0, 0, 1, 2, 3, 4])
+        if kind == 4:
+            return [0, 4] + self.tagopt() + [-1, 0]
+        pool = self.FIELDS if kind in (0, 1) else self.VARIANTS
+        names = r.sample(pool, r.randrange(1, 6))
+        ext = -1 if r.random() < 0.4 else r.randrange(len(names))
+        out = [0, kind] + self.tagopt() + [ext, len(names)]
+        for n in names:
+            out += e_str(n)
+        return out
+
+    def consts(self):
+        r = self.rng
+        names = r.sample(self.CONSTS, r.randrange(1, 4))
+        out = [len(names)]
+        for n in names:
+            out += e_str(n) + [r.choice([0, 1, 7, 255, -1, -40, 2 ** 31, 2 ** 63 - 1, -2 ** 63])]
+        return out
+
+    def field(self):
+        r = self.rng
+        ctx = r.choice([1, 1, 2, 3])
+        m = r.random()
+        if ctx != 2 and m < 0.35:
+            # named numbers / named bits: where to_rust puts constants (INTEGER, an extension addition made optional, BIT STRING)
+            t = self.ag.integer()
+            k = r.random()
+            if k < 0.25:
+                t = [6] + t
+            elif k < 0.4:
+                t = [5] + self.ag.size()
+            cs = self.consts()
+        else:
+            t = self.ag.ty(2)
+            cs = [0]
+        if ctx == 1:
+            return [1] + t + self.tagopt(0.4) + cs
+        if ctx == 2:
+            return [2] + t + self.tagopt(0.4)
+        return [3] + t + cs
+
+    def enum_variant(self):
+        r = self.rng
+        if r.random() < 0.2:
+            return [4, 0]
+        return [4, 1, r.choice([0, 1, 5, 255, 65536, 2 ** 32, 2 ** 63, 2 ** 64 - 1])]
+
+    def line(self):
+        m = self.rng.random()
+        a = self.header() if m < 0.4 else self.field() if m < 0.93 else self.enum_variant()
+        return "3413 " + " ".join(map(str, a))
+
+
+def attr_item_expected(a):
+    """what the property demands of the re-parsed attribute: the answer's result part for the encoded attribute `a`"""
+    if a[0] == 0:
+        p = 2
+        p += 1 if a[p] == 0 else 3
+        return [0, a[1]] + a[2:p] + [a[p]]
+    if a[0] == 4:
+        return [0] + a[1:]
+    e = aty_end(a, 1)
+    if a[0] == 1:
+        return [0] + a[1:]
+    if a[0] == 2:
+        return [0] + a[1:] + [0]
+    return [0] + a[1:e] + [0] + a[e:]
+
+
+def attr_item_deviation_classes(a):
+    """known reasons why a whole attribute does not come back as it went in"""
+    if a[0] == 0:
+        kind = a[1]
+        p = 2
+        p += 1 if a[p] == 0 else 3
+        ext, n = a[p], a[p + 1]
+        names = []
+        q = p + 2
+        for _ in range(n):
+            names.append("".join(chr(c) for c in a[q + 1:q + 1 + a[q]]))
+            q += 1 + a[q]
+        if kind in (0, 1) and 0 <= ext < n and names[ext] in GENERATOR_KEYWORDS:
+            return ["extensible_after_names_unescaped_field"]
+        return []
+    if a[0] == 4:
+        return []
+    e = aty_end(a, 1)
+    known = list(attr_deviation_class(a[1:e]))
+    tail = a[e:]
+    if a[0] != 2:
+        nconsts = tail[0] if a[0] == 3 else tail[1 if tail[0] == 0 else 3]
+        base = 1
+        while a[base] == 6:
+            base += 1
+        if nconsts > 0 and a[base] == 5:
+            known.append("bitstring_constants_lost_on_reparse")
+    return known
+
+
+# --------------------------------------------------------------------------------------------- op 3414: descriptor constants
+
+TRAIT_CODE = {"D::numbers::Constraint": 0, "D::utf8string::Constraint": 1, "D::numericstring::Constraint": 2,
+              "D::printablestring::Constraint": 3, "D::ia5string::Constraint": 4, "D::visiblestring::Constraint": 5,
+              "D::octetstring::Constraint": 6, "D::bitstring::Constraint": 7, "D::sequenceof::Constraint": 8,
+              "D::setof::Constraint": 9, "D::sequence::Constraint": 10, "D::set::Constraint": 11, "D::choice::Constraint": 12,
+              "D::enumerated::Constraint": 13}
+CONST_CODE = {"MIN": 0, "MAX": 1, "EXTENSIBLE": 2, "STD_VARIANT_COUNT": 3, "VARIANT_COUNT": 4, "STD_OPTIONAL_FIELDS": 5,
+              "FIELD_COUNT": 6, "EXTENDED_AFTER_FIELD": 7}
+
+
+def const_value(text):
+    if text == "None":
+        return -1
+    if text in ("true", "false"):
+        return 1 if text == "true" else 0
+    m = re.fullmatch(r"Some\((-?\d+)\)", text)
+    if m:
+        return int(m.group(1))
+    return int(text)
+
+
+def crate_descriptor_consts(cs):
+    """the constants Front/Descr.v models, out of what the harness extracted from expand(): sorted (owner, trait, const, value)"""
+    out = []
+    for (me, tr, nm), (_ty, val) in cs.items():
+        t = TRAIT_CODE.get(strip_generic(tr))
+        c = CONST_CODE.get(nm)
+        if t is None or c is None:
+            continue
+        out.append((me, t, c, const_value(val)))
+    return sorted(out)
+
+
+def model_descriptor_consts(out):
+    """answer of op 3414 -> ("ok", sorted list) | ("panic", class) | ("other", text)"""
+    o = list(map(int, out.split()))
+    if o[:1] == [2]:
+        return ("panic", o[1])
+    if o[:1] != [0]:
+        return ("other", out[:100])
+    d = Dec(o, 1)
+    res = []
+    for _ in range(d.i()):
+        owner = d.s()
+        res.append((owner, d.i(), d.i(), d.i()))
+    return ("ok", sorted(res))
+
+
 # --------------------------------------------------------------------------------------------- the check
 
 class C08(Spec):
@@ -1147,13 +1353,25 @@ class C08(Spec):
     coq_targets = ["Props/C08.vo"]
     prop_module = "Props.C08"
     theorems = ["C08_reparse_type_partial", "C08_reparse_type_in_context", "C08_refuted_half_open_range",
-                "C08_refuted_octet_default", "C08_refuted_untagged_complex"]
+                "C08_refuted_octet_default", "C08_refuted_untagged_complex",
+                "C08_reparse_attribute", "C08_reparse_attribute_wf", "C08_header_kind", "C08_ext_index_struct", "C08_ext_index_enum",
+                "C08_refuted_ext_escaped", "C08_into_asn_keeps", "C08_refuted_consts_dropped",
+                "C08_consts", "C08_std_optional_fields", "C08_set_sort_keeps_root", "C08_consts_integer", "C08_consts_bounds"]
     builds = [("default", "dev")]
-    level_text = ("PARTIAL. Proved in Coq (Front/Attr.v, Props/C08.v): the attribute TYPE sub-language -- every type the generator can print "
-                  "into #[asn(..)] (outside three refuted classes: half-open integer ranges, OCTET/BIT STRING default literals, "
-                  "complex(Name) without tag) is read back by the model of the macro's parser as itself; the model (printer as token "
-                  "trees, parser of proc_macro/{attribute,range,size,tag}.rs) is tied to the crate by op 3412 (printed tokens and re-parsed "
-                  "type, line by line). Everything else of the property is differential/oracle evidence: whole ASN.1 modules are pushed "
+    level_text = ("PARTIAL. Proved in Coq (Front/Attr.v, Front/AttrItem.v, Front/Descr.v, Props/C08.v): (1) the whole attribute -- "
+                  "C08_reparse_attribute: every attribute the generator prints for a definition header, a struct / tuple field or a CHOICE "
+                  "variant (kind or type, tag(..), extensible_after(name), const(NAME(value),..)) is read back by the model of "
+                  "AsnAttribute::parse as itself, outside three refuted classes of the type part (half-open integer ranges, OCTET/BIT STRING "
+                  "default literals, complex(Name) without tag); at item level the header kind is recognised, extensible_after(..) finds its "
+                  "member outside F08-2 (refuted: escaped field name) and into_asn keeps the constants outside F08-15 (refuted); model tied "
+                  "to the crate by ops 3412 / 3413 (printed tokens and what parse_asn_definition shows of the re-parsed attribute, line by "
+                  "line). (2) the descriptor constants -- C08_consts: MIN/MAX/EXTENSIBLE, STD_VARIANT_COUNT/VARIANT_COUNT, "
+                  "EXTENDED_AFTER_FIELD/FIELD_COUNT/STD_OPTIONAL_FIELDS the walker emits are those of the Rust model's constraints (marker "
+                  "position, component count, OPTIONAL/DEFAULT components of the root also after the canonical SET sort, root items, bounds "
+                  "present exactly when the range/size has them); model tied by op 3414 against the constants of the crate's expand() for "
+                  "every definition op 3401 re-parses. NOT proved: the item bodies (struct / enum syntax), to_rust / to_rust_keep_names "
+                  "(ASN.1 module -> Rust model), TAG / DEFAULT_VALUE constants, the lexing of the printed text (trusted). "
+                  "That remainder is differential/oracle evidence: whole ASN.1 modules are pushed "
                   "through the crate's real front end, code generator and attribute-macro entry points (parse_asn_definition, "
                   "to_rust_keep_names, expand); the oracle compares the re-parsed Rust model with the one the generator started from and "
                   "the expanded descriptor constants with the constraints of the module computed independently from the abstract "
@@ -1172,6 +1390,32 @@ class C08(Spec):
     timeout_per_chunk = 300
 
     IMPL_ONLY = ("3401", "3402", "3403")
+    pending_consts = []      # (case line, dump of the re-parsed definition, constants of its expansion): judged in extra_checks
+
+    def extra_checks(self, ctx):
+        """op 3414: the constants Front/Descr.v computes for the re-parsed Rust model (its dump is part of the answer of
+        op 3401) against the constants the harness extracted from the crate's expand() of the same definition.  A
+        difference is a model/implementation disagreement."""
+        pend, self.pending_consts = self.pending_consts, []
+        if not pend or not model_implements("3414 1 84 3 0 0 0"):
+            return
+        lines = ["3414 " + " ".join(map(str, raw)) for _l, raw, _c in pend]
+        import vlib
+        outs = vlib.run_model(lines, timeout=self.timeout_per_chunk * 3, mem_gb=8)
+        compared = 0
+        for (case, raw, cs), ml, mo in zip(pend, lines, outs):
+            got = model_descriptor_consts(mo)
+            if got[0] == "other" and mo.strip() == "-2":
+                continue        # outside the model's input language (a non-ASCII name)
+            if cs[0] == "panic":
+                want = ("panic", cs[2])
+            else:
+                want = ("ok", crate_descriptor_consts(cs[1]))
+            compared += 1
+            if got != want:
+                ctx["disagreements"].append({"case": case[:2000], "build": ["default", "dev"], "op": ml[:2000],
+                                             "impl": str(want)[:600], "model": str(got)[:600]})
+        ctx["notes"].append("op 3414: %d expansions compared with Front/Descr.v consts_of" % compared)
 
     def model_line(self, line, build):
         # ops without a Coq counterpart: ask the model for nothing (unknown op -> -1); canon erases both sides
@@ -1196,6 +1440,11 @@ class C08(Spec):
             ag = AttrGen(rng)
             for _ in range(2500 if tier == "quick" else 60000):
                 L.append("3412 " + " ".join(map(str, ag.ty(3))))
+        # whole attributes (op 3413, modelled by coq/Front/AttrItem.v)
+        if model_implements("3413 4 0"):
+            ig = AttrItemGen(rng)
+            for _ in range(2500 if tier == "quick" else 60000):
+                L.append(ig.line())
         return L
 
     # ---------------------------------------------------------------- oracle
@@ -1218,10 +1467,34 @@ class C08(Spec):
             return [(c, "attribute type %s came back as %s" % (a, back)) for c in sorted(set(known))]
         return ("attr_reparse_differs", "attribute type %s came back as %s" % (a, back))
 
+    def oracle_attr_item(self, line, out):
+        a = list(map(int, line.split()))[1:]
+        o = list(map(int, out.split()))
+        if o[:1] != [0]:
+            if o[:1] == [-2] or o[:2] == [2, 1]:
+                return None     # malformed line / a Rust model whose extension index is out of range: not in the generator's domain
+            return ("attr_generation_failed", "%s -> %s" % (line, out[:100]))
+        try:
+            p = skip_tokens(o, 2, o[1])
+            want = attr_item_expected(a)
+            known = attr_item_deviation_classes(a)
+        except (ValueError, IndexError):
+            return ("malformed_answer", out[:200])
+        back = o[p:]
+        if back == want:
+            return None
+        if a[0] == 4 and len(a) == 3 and a[2] >= 2 ** 64:
+            return None     # not a usize: no ENUMERATED number of the Rust model
+        if known:
+            return [(c, "attribute %s came back as %s" % (a, back)) for c in sorted(set(known))]
+        return ("attr_item_reparse_differs", "attribute %s came back as %s, expected %s" % (a, back, want))
+
     def oracle(self, line, out, build):
         a = line.split(" ", 1)
         if a[0] == "3412":
             return self.oracle_attr(line, out)
+        if a[0] == "3413":
+            return self.oracle_attr_item(line, out)
         if a[0] != "3401":
             return None
         text = text_of_line(line)
@@ -1267,6 +1540,8 @@ class C08(Spec):
                 else:
                     fails += diff_defs(r1, r2[1][0])
                 cs = d["consts"]
+                if r2[0] == "ok" and len(r2[1]) == 1 and cs[0] in ("ok", "panic") and len(self.pending_consts) < 200000:
+                    self.pending_consts.append((line, r2[2][0], cs))
                 if cs[0] == "err" and r2[0] == "ok":
                     fails.append(("expand_error", "definition %s: stage %d" % (r1["name"], cs[1])))
                 elif cs[0] == "panic" and r2[0] == "ok":
@@ -1324,7 +1599,7 @@ class C08(Spec):
 
     def nontrivial(self, line, out):
         o = out.split(" ", 3)
-        if line.startswith("3412"):
+        if line.startswith("3412") or line.startswith("3413"):
             return o[:1] == ["0"] and len(line.split()) > 3
         return o[:1] == ["0"] and len(o) > 2 and o[2] != "0"
 
